@@ -122,37 +122,29 @@ Qed.
 Lemma print_results_spec sch old m fmp cs k s t :
   PreS old m t s -> (fmp = false -> s_appx s = []) ->
   match print_results sch fmp cs k s with
-  | Ret _ s' => PreS old m (t ++ out_calls fmp (s_appx s) [cs]) s'
-                /\ s_appx s' = (match cs with [] => s_appx s | _ => [] end)
+  | Ret _ s' => PreS old m (t ++ out_calls fmp (s_appx s) [cs]) s' /\ s_appx s' = []
   | Err s' | Dead s' | Pan s' => Old old s'
   end.
 Proof.
-  intros HP Hax. destruct cs as [|c cs].
-  - cbn. rewrite app_nil_r. split; [exact HP | reflexivity].
-  - unfold print_results. unfold bind at 1.
-    pose proof (print_chunks_spec sch old m (c :: cs) k s t HP) as H1.
-    destruct (print_chunks sch (c :: cs) k s) as [k' s1|s1|s1|s1]; try exact H1.
-    destruct H1 as [HP1 Hax1].
-    destruct fmp.
-    + unfold seq, bind.
-      pose proof (appendix_spec sch old m s1 _ HP1) as H2.
-      destruct (op_appendix sch s1) as [u s2|s2|s2|s2]; try exact H2.
-      destruct H2 as [HP2 Hax2]. unfold ret. split; [|exact Hax2].
-      cbn [out_calls]. rewrite app_nil_r. rewrite Hax1 in HP2.
-      rewrite <- app_assoc in HP2. exact HP2.
-    + unfold ret. split.
-      * cbn [out_calls]. cbn [app]. rewrite app_nil_r. exact HP1.
-      * rewrite Hax1. apply Hax. reflexivity.
+  intros HP Hax. unfold print_results. unfold bind at 1.
+  pose proof (print_chunks_spec sch old m cs k s t HP) as H1.
+  destruct (print_chunks sch cs k s) as [k' s1|s1|s1|s1]; try exact H1.
+  destruct H1 as [HP1 Hax1].
+  destruct fmp.
+  - unfold seq, bind.
+    pose proof (appendix_spec sch old m s1 _ HP1) as H2.
+    destruct (op_appendix sch s1) as [u s2|s2|s2|s2]; try exact H2.
+    destruct H2 as [HP2 Hax2]. unfold ret. split; [|exact Hax2].
+    cbn [out_calls]. rewrite app_nil_r. rewrite Hax1 in HP2.
+    rewrite <- app_assoc in HP2. exact HP2.
+  - unfold ret. split.
+    + cbn [out_calls]. cbn [app]. rewrite app_nil_r. exact HP1.
+    + rewrite Hax1. apply Hax. reflexivity.
 Qed.
 
 Lemma out_calls_cons fmp ax c cs :
-  out_calls fmp ax (c :: cs) =
-  out_calls fmp ax [c] ++ out_calls fmp (match c with [] => ax | _ => [] end) cs.
-Proof.
-  destruct c as [|x c].
-  - reflexivity.
-  - cbn [out_calls]. rewrite !app_nil_r. rewrite <- !app_assoc. reflexivity.
-Qed.
+  out_calls fmp ax (c :: cs) = out_calls fmp ax [c] ++ out_calls fmp [] cs.
+Proof. cbn [out_calls]. rewrite !app_nil_r. rewrite <- !app_assoc. reflexivity. Qed.
 
 Lemma eval_calls_spec sch old m fmp : forall calls k s t,
   PreS old m t s -> (fmp = false -> s_appx s = []) ->
@@ -167,9 +159,7 @@ Proof.
     pose proof (print_results_spec sch old m fmp c k s t HP Hax) as H1.
     destruct (print_results sch fmp c k s) as [k' s1|s1|s1|s1]; try exact H1.
     destruct H1 as [HP1 Hax1].
-    assert (Hax' : fmp = false -> s_appx s1 = []).
-    { intro Hf. rewrite Hax1. destruct c; [apply Hax; exact Hf | reflexivity]. }
-    specialize (IH k' s1 _ HP1 Hax').
+    specialize (IH k' s1 _ HP1 (fun _ => Hax1)).
     destruct (eval_calls sch fmp cs k' s1) as [k'' s2|s2|s2|s2]; try exact IH.
     rewrite out_calls_cons, app_assoc, <- Hax1. exact IH.
 Qed.
@@ -517,19 +507,15 @@ Lemma fm_split_app b : fst (fm_split b) ++ snd (fm_split b) = b.
 Proof. apply fm_split_fuel_app. Qed.
 
 Lemma out_calls_has_appx : forall calls ax,
-  (exists c, In c calls /\ c <> []) ->
-  exists pre post, out_calls true ax calls = pre ++ ax ++ post.
+  calls <> [] -> exists pre post, out_calls true ax calls = pre ++ ax ++ post.
 Proof.
-  induction calls as [|c cs IH]; intros ax (c0 & Hin & Hne); [contradiction|].
-  destruct c as [|x c].
-  - cbn [out_calls]. apply IH. destruct Hin as [<-|Hin]; [contradiction|]. exists c0. split; assumption.
-  - cbn [out_calls]. eexists. eexists. reflexivity.
+  intros [|c cs] ax Hne; [contradiction|]. cbn [out_calls]. eexists. eexists. reflexivity.
 Qed.
 
 Lemma front_matter_tail_kept sch pl old cross :
   let cfg := mkCfg cross FmProcess in
   let o := run cfg sch pl old in
-  (exists c, In c (pl_calls pl) /\ c <> []) ->
+  pl_calls pl <> [] ->
   ~ In OCreateDst (final_trace o) ->
   tail_kept (snd (fm_split (f_bytes old))) (final_target o).
 Proof.
